@@ -114,6 +114,20 @@ pub fn dispatch(args: &[String]) -> Option<i32> {
                     let r17 = crate::engine::guard(|| crate::props::c17::check_string(&s, &mut st)).unwrap_or_else(|p| Err(crate::engine::Failure::new("panic", p)));
                     results.push(("C17", "text", serde_json::json!(s), r17));
                 }
+                "algebra_c07_c15" => {
+                    if let Some(case) = crate::fuzzdec::decode_alg_case(&data) {
+                        let only = std::env::var("VCHECK_FUZZ_PROP").ok().filter(|s| !s.is_empty()).unwrap_or_else(|| id.to_string());
+                        let rs = crate::engine::guard(|| crate::fuzzdec::check_alg(&case, Some(only.as_str()), &mut st));
+                        match rs {
+                            Ok(v) => {
+                                for (prop, cj, r) in v {
+                                    results.push((prop, "fuzz", cj, r));
+                                }
+                            }
+                            Err(p) => results.push(("C06", "pools", serde_json::json!(format!("{:?}", case)), Err(crate::engine::Failure::new("panic", p)))),
+                        }
+                    }
+                }
                 _ => {
                     eprintln!("unknown target {}", target);
                     return Some(2);
@@ -123,6 +137,10 @@ pub fn dispatch(args: &[String]) -> Option<i32> {
             let mut any_fail = false;
             for (prop, campaign, case, r) in results {
                 if let Err(f) = r {
+                    if f.message.starts_with(crate::engine::INCONCLUSIVE) {
+                        eprintln!("[{}] fuzz artifact: {}", prop, f.message);
+                        continue;
+                    }
                     any_fail = true;
                     let dir = format!("{}/work/replays", crate::findings::verif_dir());
                     let _ = std::fs::create_dir_all(&dir);
